@@ -139,9 +139,9 @@ pub fn run_c14(cfg: &Cfg, rep: &mut Report) {
         explore_poll(cfg, rep, &[4], &v2[..1], T2, 200_000, "c14");
     } else {
         for &t in &[0u64, T2, T_INF] {
-            explore_poll(cfg, rep, &[0], &v2, t, 2_000_000, "c14");
+            explore_poll(cfg, rep, &[0], &v2, t, 80_000, "c14");
         }
-        explore_poll(cfg, rep, &[15], &v2, T2, 2_000_000, "c14");
+        explore_poll(cfg, rep, &[15], &v2, T2, 80_000, "c14");
         if cfg.thorough {
             if cfg.release {
                 for &t in &[0u64, T2, T_INF] {
@@ -161,13 +161,13 @@ pub fn run_c14(cfg: &Cfg, rep: &mut Report) {
             let c = crate::util::rotating_channel(cfg, i);
             let ts: &[u64] = if cfg.thorough && cfg.release { &[0, T2, T_INF] } else { &[T2] };
             for &t in ts {
-                explore_poll(cfg, rep, &[c], &p[..], t, 2_000_000, "c14-rotating");
+                explore_poll(cfg, rep, &[c], &p[..], t, 80_000, "c14-rotating");
             }
         }
     }
     if !cfg.as_c18 {
         for (i, p) in crate::util::dict_pairs(cfg, 3, 1).iter().enumerate() {
-            explore_poll(cfg, rep, &[[0u8, 15, 9, 5][i % 4]], &p[..], T2, 2_000_000, "c14-dictionary");
+            explore_poll(cfg, rep, &[[0u8, 15, 9, 5][i % 4]], &p[..], T2, 80_000, "c14-dictionary");
         }
     }
     pump_polling(cfg, rep, T2, 1);
@@ -346,7 +346,7 @@ pub fn run_c13(cfg: &Cfg, rep: &mut Report) {
     for &t in &timeouts {
         let alpha = pn_alphabet(&[5], if cfg.as_c18 { &v2[..1] } else { &v2 }, true, Some(TICK));
         let init = PollTemplates { mon: PollMon::new(t), chan: 5 };
-        let (st, _) = explore(cfg, init, &alpha, 2_000_000, rep, false);
+        let (st, _) = explore(cfg, init, &alpha, 80_000, rep, false);
         rep.states += st.states;
         rep.transitions += st.transitions;
         rep.evaluations += st.transitions;
@@ -366,7 +366,7 @@ pub fn run_c13(cfg: &Cfg, rep: &mut Report) {
             let c = crate::util::rotating_channel(cfg, i);
             let alpha = pn_alphabet(&[c], &p[..], true, Some(TICK));
             let init = PollTemplates { mon: PollMon::new(T2), chan: c };
-            let (st, _) = explore(cfg, init, &alpha, 2_000_000, rep, false);
+            let (st, _) = explore(cfg, init, &alpha, 80_000, rep, false);
             rep.states += st.states;
             rep.transitions += st.transitions;
             rep.evaluations += st.transitions;
@@ -382,7 +382,7 @@ pub fn run_c13(cfg: &Cfg, rep: &mut Report) {
             let c = [0u8, 15, 9, 5][i % 4];
             let alpha = pn_alphabet(&[c], &p[..], true, Some(TICK));
             let init = PollTemplates { mon: PollMon::new(T2), chan: c };
-            let (st, _) = explore(cfg, init, &alpha, 2_000_000, rep, false);
+            let (st, _) = explore(cfg, init, &alpha, 80_000, rep, false);
             rep.states += st.states;
             rep.transitions += st.transitions;
             rep.evaluations += st.transitions;
@@ -1031,7 +1031,7 @@ pub fn run_c12(cfg: &Cfg, rep: &mut Report) {
             let mut mon = PollMon::new(t);
             mon.p5 = false;
             let init = PollCorollary { mon, chan, seed: cfg.seed };
-            let (st, _) = explore(cfg, init, &alpha, 2_000_000, rep, false);
+            let (st, _) = explore(cfg, init, &alpha, 80_000, rep, false);
             rep.states += st.states;
             rep.transitions += st.transitions;
             rep.distinct_nontrivial += st.states;
